@@ -28,7 +28,7 @@ From Coq Require Import ZArith Bool List.
 Import ListNotations.
 
 (** integer types of the translated sources *)
-Inductive ity : Type := Isize | Usize | I128 | U64 | I64 | I32 | U32 | I16 | U8.
+Inductive ity : Type := Isize | Usize | I128 | U64 | I64 | I32 | U32 | I16 | U8 | U16.
 
 (** what one round of a loop body says: leave the function with a value, or go on with the
     new values of the variables the loop assigns *)
@@ -164,7 +164,7 @@ Definition ity_min (t : ity) : Z :=
   | I128 => - 2 ^ 127
   | I32 => - 2 ^ 31
   | I16 => - 2 ^ 15
-  | Usize | U64 | U32 | U8 => 0
+  | Usize | U64 | U32 | U8 | U16 => 0
   end.
 Definition ity_max (t : ity) : Z :=
   match t with
@@ -175,6 +175,7 @@ Definition ity_max (t : ity) : Z :=
   | Usize | U64 => 2 ^ 64 - 1
   | U32 => 2 ^ 32 - 1
   | U8 => 255
+  | U16 => 65535
   end.
 Definition ity_in (t : ity) (z : Z) : bool := (ity_min t <=? z) && (z <=? ity_max t).
 
